@@ -25,6 +25,7 @@ func main() {
 	warm := flag.Bool("warm", false, "load the repository once (warms the build cache)")
 	list := flag.Bool("list", false, "list function keys matching -dump substring")
 	flag.StringVar(&sinkFilter, "sink", "", "debug: with -dump, only show instructions containing this substring")
+	grepCalls := flag.String("grepcalls", "", "debug: list call sites whose callee key contains the substring")
 	flag.Parse()
 	if os.Getenv("VERIF_TIER") != "" && *tier == "" {
 		*tier = os.Getenv("VERIF_TIER")
@@ -37,6 +38,24 @@ func main() {
 	}
 	if *warm {
 		fmt.Printf("loaded %d packages, %d functions in %.1fs\n", len(p.Pkgs), len(p.AllFuncs), time.Since(t0).Seconds())
+		return
+	}
+	if *grepCalls != "" {
+		cnt := map[string]int{}
+		for _, f := range p.AllFuncs {
+			ir.EachInstr(f, func(in ssa.Instruction) {
+				if call := ir.CallOf(in); call != nil {
+					n := ir.CalleeName(call)
+					if strings.Contains(n, *grepCalls) {
+						fmt.Printf("%s\t%s\t%s\n", p.InstrPos(in), ir.FuncName(f), n)
+						cnt[n]++
+					}
+				}
+			})
+		}
+		for n, k := range cnt {
+			fmt.Printf("# %d\t%s\n", k, n)
+		}
 		return
 	}
 	if *dump != "" {
